@@ -182,6 +182,30 @@ func c15Check() *HistCheck {
 			if err != nil {
 				return nil, "", &scn.HarnessError{Msg: err.Error()}
 			}
+			// Commit-time bound, independent of the timestamps litestream wrote: state i of the source was committed
+			// not earlier than LedgerPre[i], hence replicated not earlier either; a restore with T = that instant
+			// (truncated to the millisecond resolution of LTX timestamps) must yield a state committed before it.
+			for i := 1; i < len(s.Ledger) && i < len(s.LedgerPre); i++ {
+				T := s.LedgerPre[i].Truncate(time.Millisecond)
+				im, rerr := s.Restore(scn.RestoreOpt{Timestamp: T})
+				if rerr != nil {
+					continue
+				}
+				nT++
+				idx := s.MatchLedger(im)
+				if len(idx) == 0 {
+					continue // judged by the TXID-state oracle above
+				}
+				older := false
+				for _, j := range idx {
+					if j < i {
+						older = true
+					}
+				}
+				if !older {
+					probs = append(probs, &scn.Problem{Kind: "data-from-after-T", Detail: fmt.Sprintf("T = an instant not later than the commit of source state #%d: the restore equals source state(s) %v, committed (hence replicated) at or after T", i, idx)})
+				}
+			}
 			return probs, fmt.Sprintf("ok/%s/T=%d", shapeClass(s), bucket(nT)), nil
 		},
 	}
@@ -220,6 +244,10 @@ func c15(args []string) int {
 		// earlier than the level-0 file it ends up covering
 		{Name: "seeded/keep-l0/queued-snapshot", Cfg: keep, Alphabet: strings.Fields("W1 SW QSNAP CMP:1 RETL0:2"), Depth: d(3, 4),
 			Seeds: [][]string{strings.Fields("W1 SW W1"), strings.Fields("W1 SW W1 SW CMP:1 W1")}},
+		// several level-0 files written by ONE executor pass with an application commit landing in between (LCW: the
+		// checkpoint barrier waits for the application's open transaction)
+		{Name: "seeded/keep-l0/commit-inside-checkpoint-pass", Cfg: func() scn.Config { c := keep; c.BusyTimeoutMS = 80; return c }(), Alphabet: strings.Fields("LCW:PASSIVE:early LCW:RESTART:early LCW:PASSIVE W1 SW TXB"), Depth: d(2, 3),
+			Seeds: [][]string{strings.Fields("W1 SW W1 TXB"), strings.Fields("W1 SW TXB")}},
 		{Name: "exact/keep-l0", Cfg: keep, Alphabet: a, Depth: d(4, 6)},
 		{Name: "seeded/keep-l0", Cfg: keep, Alphabet: a, Depth: d(2, 4), Seeds: seeds},
 		{Name: "seeded/l0-pruned-by-compaction", Cfg: prune, Alphabet: a, Depth: d(2, 4), Seeds: seeds},
